@@ -89,6 +89,8 @@ fn reason_num(r: AbortReason) -> u8 {
         AbortReason::NotFound => 0,
         AbortReason::AlreadySyncing => 1,
         AbortReason::InternalServerError => 2,
+        #[allow(unreachable_patterns)]
+        _ => 9,
     }
 }
 
